@@ -420,7 +420,7 @@ class G:
     def S(self, cx: Cx):
         if not self.spend():
             return self.S_leaf(cx)
-        k = self.i(0, 29)
+        k = self.i(0, 31)
         o = cx.operand()
         L = self.level
         if k <= 5:
@@ -469,6 +469,21 @@ class G:
                 return c
         if k == 19:
             return ["seq", [self.S(cx.sub()) for _ in range(self.i(0, 3))]]
+        if k == 23 and cx.can_jump and self.opts.get("no_init") and self.opts.get("returns", True):
+            # a store that sits in the same block as an exit, inside a conditional arm, followed by a use on the
+            # fall-through path (the arm's store must not count for the sibling path)
+            t = "U"
+            v = self.new_var(t, cx, plain=True)
+            arm = ["seq", [["store", v, self.U(o)], self.ret(cx)]]
+            use = ["pop", ["load", v]]
+            w = self.i(0, 3)
+            if w == 0:
+                return ["seq", [["if", self.cond_expr(o), arm, None, self.pick(["fn", "then"])], use]]
+            if w == 1:
+                return ["seq", [["if", self.cond_expr(o), arm, ["pop", ["int", 1]], "then"], use]]
+            if w == 2:
+                return ["seq", [["cond", [[self.cond_expr(o), arm], [["int", 1], ["pop", ["int", 2]]]]], use]]
+            return ["seq", [["store", v, ["int", 1]], ["if", self.cond_expr(o), arm, None, "fn"], use]]
         if k in (21, 22):
             # optimiser trigger: a store immediately followed by a load of the same variable
             t = self.pick(["U", "U", "B"])
